@@ -116,23 +116,8 @@ def check_mapping(ctx, lib):
         ctx.missing(rule, "Comparison", "interpret arm for Comparison")
         return
     arm = ip.arms["Comparison"]
-    ok = len(arm.oks) == 1 and not arm.tail
-    if ok:
-        for t in arm.oks[0][1]:
-            ok = ok and t[0] == "call" and t[1] == "std::option::Option::<T>::map_or"
-            if not ok:
-                break
-            cmp_, dflt, clo = t[2]
-            ok = ok and all(c[0] == "call" and c[1] == "variable::Variable::compare" and ip.is_res(set(c[2][0]), "Comparison.lhs") and
-                            set(c[2][1]) == {("field", NODE, "Comparison.comparator")} and ip.is_res(set(c[2][2]), "Comparison.rhs") for c in cmp_)
-            ok = ok and set(dflt) == {("agg", V + "::Null", (), ())}
-            for c in clo:
-                cb = lib.fn(c[1]) if c[0] == "closure" else None
-                if cb is None:
-                    ok = False
-                    continue
-                r = Origins(cb, lib).of_local(0)
-                ok = ok and bool(r) and all(x[0] == "agg" and x[1] == V + "::Bool" and set(x[2][0]) == {("param", 2)} for x in r)
+    from ..interp import comparison_mapping_ok
+    ok = comparison_mapping_ok(ip, arm)
     ctx.check(ok, rule, "Comparison", "a comparison evaluates to compare(left, op, right): None -> null, Some(b) -> Bool(b), left/right in source order", ip.b.span)
 
 
